@@ -94,7 +94,9 @@ def run(ctx):
         speccode.drive(camp, progs, kw, sessions)
         vs = camp.validate()
         campaign.judge(ctx, camp, vs, clauses=("C09.alt-stream",), conformance=lambda v, m: campaign.kind_of(v) in KINDS and
-                       (v["exp"]["k"] in RECOVER or v["got"]["k"] in RECOVER or campaign.kind_of(v).startswith("result:")) and
+                       (v["exp"]["k"] in RECOVER or v["got"]["k"] in RECOVER or campaign.kind_of(v).startswith("result:") or
+                        # where a member of a look-ahead / alternative construct starts is that construct's doing
+                        (campaign.kind_of(v) == "in-pos" and any(n["k"] in RECOVER for n in A.walk(m["prog"])))) and
                        (m["case"]["op"] == "parse" or (m["case"]["op"] == "build" and any(n["k"] in ("Select", "Optional") for n in A.walk(m["prog"])) and
                                                        campaign.kind_of(v) in ("result:result-bytes", "result:result-status", "result:result-pos", "out-value", "out-status", "out-pos", "in-pos"))))
         cvs = campaign.validate_cam(camp)
